@@ -37,6 +37,8 @@ Definition run_check (kind code : N) (a : varg) : chk_out :=
   | 6, AOther => cerr code
   | 7, AInt z => if (z <? 0)%Z then CRet else CPass
   | 7, _ => CRet
+  | 8, AInt _ => CPass
+  | 8, _ => cerr code
   | _, _ => CBadTable          (* a comparison on an operand that was never converted to an int, unknown kind *)
   end.
 
